@@ -2,6 +2,7 @@ import GdcVerif.Gen.JpegLs
 import GdcVerif.Gen.JpegLsNear
 import GdcVerif.Lemmas.JpegLs
 import GdcVerif.Lemmas.JpegLsNear
+import GdcVerif.Lemmas.JpegLsLockstep3
 /-!
   C07 — JPEG-LS near-lossless: every reconstructed sample is within NEAR of the original.
 
@@ -94,5 +95,43 @@ theorem near_encode_accepts_admissible (P : Nat) (N : Int) (h : Admissible P N) 
   rcases hc with rfl | rfl <;> simp [h1, h2, h3, h4, h5, h6, hP2, hP16] <;> simpa using hlen
 
 example : Gen.JpegLsNear.Encode_accepts 12 3 2 1 12 3 = true := by decide
+
+/-- (6) WHOLE IMAGES, bit level (model `JpegLsScanL`, tied to `nearlossless.Encode/Decode` and
+    `lossless.Encode/Decode` by `jls-scanL-enc/dec`): for every admissible (P, NEAR), every width and
+    height, 1 component (ILV 0) or several (ILV 2) and every image with samples in [0, MAXVAL]: the scan
+    decoder applied to the bits of the scan encoder's `WriteBits` calls returns an image `recs` in
+    which EVERY sample is within NEAR of the source sample and inside [0, MAXVAL] (`recs` is the
+    encoder's own working array — that equality is the lock-step invariant). -/
+theorem jpegls_near_bound (P : Nat) (N : Int) (h : Admissible P N) (comps : Nat) (hc : 1 ≤ comps) (w : Nat)
+    (lines : List (List JpegLsScanL.Pixel))
+    (hl : ∀ l ∈ lines, JpegLsScanL.LineOk comps ((2 : Int) ^ P - 1) w l) :
+    ∃ ws recs, JpegLsScanL.encodeImage (traits P N) w comps lines = .ok (ws, recs) ∧
+      Lockstep.AllRel (Lockstep.AllRel (JpegLsScanL.PixClose N)) recs lines ∧
+      (∀ l ∈ recs, ∀ p ∈ l, JpegLsScanL.PixOk comps ((2 : Int) ^ P - 1) p) ∧
+      ∀ rest, JpegLsScanL.decodeImage (traits P N) w lines.length comps (Golomb.writesBits ws ++ rest) = .ok (recs, rest) :=
+  JpegLsScanL.image_roundtrip P N h comps hc w lines hl
+
+/-- per sample: what `PixClose` / `AllRel` say at a given line, column and component -/
+theorem jpegls_near_bound_sample (N : Int) (recs lines : List (List JpegLsScanL.Pixel))
+    (hrl : Lockstep.AllRel (Lockstep.AllRel (JpegLsScanL.PixClose N)) recs lines)
+    (y x k : Nat) (hy : y < lines.length) (hx : x < lines[y].length) (hk : k < lines[y][x].length) :
+    ∃ (hy' : y < recs.length) (hx' : x < recs[y].length) (hk' : k < recs[y][x].length),
+      -N ≤ recs[y][x][k] - lines[y][x][k] ∧ recs[y][x][k] - lines[y][x][k] ≤ N := by
+  have hy' : y < recs.length := by rw [hrl.length_eq]; exact hy
+  have h1 := hrl.get y hy' hy
+  have hx' : x < recs[y].length := by rw [h1.length_eq]; exact hx
+  have h2 := h1.get x hx' hx
+  have hk' : k < recs[y][x].length := by rw [Lockstep.AllRel.length_eq h2]; exact hk
+  exact ⟨hy', hx', hk', Lockstep.AllRel.get h2 k hk' hk⟩
+
+example : Admissible 8 3 ∧ JpegLsScanL.LineOk 3 ((2 : Int) ^ 8 - 1) 1 [[255, 0, 17]] := by
+  refine ⟨by decide, rfl, ?_⟩
+  intro p hp
+  simp only [List.mem_singleton] at hp
+  subst hp
+  refine ⟨rfl, ?_⟩
+  intro v hv
+  simp only [List.mem_cons, List.mem_singleton, List.not_mem_nil, or_false] at hv
+  rcases hv with rfl | rfl | rfl <;> (unfold JpegLsScanL.SampOk; decide)
 
 end C07
